@@ -225,12 +225,11 @@ package roaring
 //@   ensures result == c ==> result.$arr == old(c.$arr) && result.$runs == old(c.$runs) && result.$bm == old(c.$bm)
 //@   ensures result != c ==> fresh(result.$arr) && fresh(result.$runs) && fresh(result.$bm)
 //@   modifies c.flags, c.pointer, c.len, c.cap, c.data, c.$arr, c.$runs, c.$bm
+//@   ensures (old(c.flags) & 2) != 0 ==> c.flags == old(c.flags) && c.typeID == old(c.typeID) && c.n == old(c.n) && c.$arr == old(c.$arr) && c.$runs == old(c.$runs) && c.$bm == old(c.$bm)
 
 //@ contract (*Container).bitmapAdd props C01,C03
 //@   requires c != nil && wfBm(c) && c.n < 2147483647
 //@   modifies c.flags, c.pointer, c.len, c.cap, c.data, c.typeID, c.n, c.$arr, c.$runs, c.$bm, elems(c.$arr), elems(c.$runs), elems(c.$bm)
-//@   ensures result0 != nil ==> (result0.$arr.ref == 0 || result0.$arr.ref == old(c.$arr.ref) || fresh(result0.$arr)) && (result0.$runs.ref == 0 || result0.$runs.ref == old(c.$runs.ref) || fresh(result0.$runs)) && (result0.$bm.ref == 0 || result0.$bm.ref == old(c.$bm.ref) || fresh(result0.$bm))
-//@   ensures result0 == nil || result0 == c || fresh(result0)
 //@   ensures result0 != nil && wfBm(result0)
 //@   ensures (old(c.flags) & 3) == 0 ==> result0 == c
 //@   ensures result1 <==> !old(mem(c, v))
@@ -238,6 +237,9 @@ package roaring
 //@   ensures result1 ==> result0.n == old(c.n) + 1
 //@   ensures !result1 ==> result0 == c && result0.n == old(c.n)
 //@   ensures (old(c.flags) & 2) != 0 && result1 ==> fresh(result0)
+//@   ensures result0 != nil ==> (result0.$arr.ref == 0 || result0.$arr.ref == old(c.$arr.ref) || fresh(result0.$arr)) && (result0.$runs.ref == 0 || result0.$runs.ref == old(c.$runs.ref) || fresh(result0.$runs)) && (result0.$bm.ref == 0 || result0.$bm.ref == old(c.$bm.ref) || fresh(result0.$bm))
+//@   ensures result0 == nil || result0 == c || fresh(result0)
+//@   ensures (old(c.flags) & 2) != 0 ==> c.flags == old(c.flags) && c.typeID == old(c.typeID) && c.n == old(c.n) && c.$arr == old(c.$arr) && c.$runs == old(c.$runs) && c.$bm == old(c.$bm) && unchanged(c.$arr) && unchanged(c.$runs) && unchanged(c.$bm)
 
 // ---- constructors (inlined: alloc + setArray/setRuns) ------------------------
 
